@@ -232,9 +232,11 @@ func runC04(c *Ctx) {
 		seqs := enumSeqs(g[0], false, model.AllOutcomes)
 		for i, s := range seqs {
 			if c.Quick() {
-				cl := c04Classes[i%len(c04Classes)]
-				jobs = append(jobs, job{g[0], g[1], cl, form, s, ""})
-				form++
+				for k := 0; k < 3; k++ {
+					cl := c04Classes[(i+3*k)%len(c04Classes)]
+					jobs = append(jobs, job{g[0], g[1], cl, form, s, ""})
+					form++
+				}
 			} else {
 				for _, cl := range c04Classes {
 					jobs = append(jobs, job{g[0], g[1], cl, form, s, ""})
